@@ -11,7 +11,7 @@ from typing import Callable, Dict, FrozenSet, List, Optional, Set, Tuple
 from engine import AnalysisError
 from engine.srcmodel import walk_shallow, norm, parent, ancestors
 from engine.util import call_name, enumerate_paths, contains, fstring_template
-from engine.cfg import CFG
+from engine.cfg import CFG, stmt_of
 from engine.dataflow import assigned_value, target_names
 from engine.inline import inlined
 
@@ -33,13 +33,17 @@ EXPLANATION = (
     "of _get_var_idx and the argument of _relabel_var are the same value, both maps are keyed by the same value, the re-labelling uses "
     "_vectorization_labels, and the path is `<node>/<op>/<var>` with <node> the element of the get_nodes result the entry is written "
     "for and <op>/<var> the pair that get_nodes was asked to resolve (the look-up may sit in a helper that returns the node list "
-    "together with op and var; a fresh dict bound to a local and stored under the index map counts as part of the index map).  NOT decided: that get_nodes enumerates wildcards in declaration "
+    "together with op and var; a fresh dict bound to a local and stored under the index map counts as part of the index map).  R6 a path identifier object that a caller hands to a path resolver "
+    "(get_nodes and the other functions that accept a path as string or list of levels) more than once - every sibling of a wildcard "
+    "level, every iteration of a loop - is not edited in place by that resolver (mutation summaries of the effect analysis: pop / del / "
+    "remove / insert / slice assignment on the parameter, an alias of it or in a callee), otherwise later siblings resolve a shortened "
+    "path.  NOT decided: that get_nodes enumerates wildcards in declaration "
     "order for every hierarchy (dict insertion order, library guarantee), the numerical values, what the backend does with the index."
 )
 RULE_TEXT = ("R1: one obligation per sink (call of get_nodes/_get_var_idx resolved through the call graph, subscript of the index "
              "table), sources = call sites of _relabel_var (every call spelt like a source/sink must have been resolved to it); R2: one "
              "obligation per label append + frame assembly, in run() or in the helper run() delegates the assembly to; R3: three "
-             "obligations per (index, backend key) entry.  Non-trivial = decided by def-use/taint, path pairing or value identity.")
+             "obligations per (index, backend key) entry; R6: one obligation per call site of a path resolver and one per resolver.  Non-trivial = decided by def-use/taint, path pairing or value identity.")
 ASSUMPTIONS = [
     "Values returned by functions outside pyrates/frontend/template/circuit.py carry no backend label derived from _relabel_var "
     "(the taint analysis is inter-procedural only inside that module, through return summaries; parameters are assumed clean).",
@@ -1326,10 +1330,139 @@ def r5_index_lists_applied(ctx, rid):
     permutation_test_as_identity(ctx, rid)
 
 
+# --------------------------------------------------------------------------------------------
+# R6 — a path identifier that is handed on repeatedly is not consumed by the resolver
+# --------------------------------------------------------------------------------------------
+
+_FRESH_CALLS = {"list", "tuple", "sorted", "copy", "deepcopy", "split", "rsplit", "reversed"}
+
+
+def _path_resolvers(ctx):
+    """{function: name of its path-identifier parameter}: CircuitTemplate.get_nodes (anchor) and every function of the module
+    that accepts a path either as a '/'-separated string or as a list of levels (a parameter that is re-bound to its own split)."""
+    gn = ctx.repo.get_func(REL, f"{CLS}.get_nodes")
+    own = [x for x in gn.params if x != gn.self_name]
+    ctx.require(own, "C06-R6: CircuitTemplate.get_nodes lost its identifier parameter")
+    out = {gn: own[0]}
+    for f in ctx.repo.all_functions([REL]):
+        for st in walk_shallow(f.node):
+            if isinstance(st, ast.Assign) and len(st.targets) == 1 and isinstance(st.targets[0], ast.Name) and st.targets[0].id in f.params \
+                    and st.targets[0].id != f.self_name and f not in out:
+                nm = st.targets[0].id
+                if any(isinstance(c, ast.Call) and isinstance(c.func, ast.Attribute) and c.func.attr == "split"
+                       and isinstance(c.func.value, ast.Name) and c.func.value.id == nm for c in ast.walk(st.value)):
+                    out[f] = nm
+    return out
+
+
+def r6_identifier_not_consumed(ctx, rid):
+    """get_nodes (and the other path resolvers) descend a hierarchy by handing the remaining levels of the identifier to the
+    resolvers of the sub-circuits.  If a resolver shortens / edits the identifier *object* it was given (pop, del, remove, insert,
+    slice assignment - directly, through an alias or in a callee) and a caller hands the same object to a resolver more than once
+    (every sibling of a wildcard level, every iteration of a loop), later resolutions see another path than the one that was
+    asked for: the same path denotes different variables depending on the position in the hierarchy."""
+    eff = ctx.effects
+    resolvers = _path_resolvers(ctx)
+    consumed = {}
+    for r, prm in resolvers.items():
+        evs = [e for e in eff.events_of(r, None) if e.origin[0] == "P" and e.origin[1] == prm and e.origin[2] == ()]
+        if evs or any(pp == prm and path == () for pp, path in eff.mutates(r, None)):
+            consumed[r] = evs
+    # every place where an identifier is handed to a resolver
+    n_sites = 0
+    shared_sites = []
+    for f in ctx.repo.all_functions():
+        calls = [c for c in ordered(walk_shallow(f.node)) if isinstance(c, ast.Call) and call_name(c) in {r.name for r in resolvers}]
+        if not calls:
+            continue
+        rd = ctx.rd(f)
+        passed = []       # (call, resolver targets, argument)
+        for c in calls:
+            targets, how = ctx.cg.resolve_call(f, c)
+            ts = [t for t in targets if t in resolvers]
+            if not ts:
+                continue
+            if any(isinstance(a, ast.Starred) for a in c.args) or any(k.arg is None for k in c.keywords):
+                raise AnalysisError(f"{rid}: `{norm(c)}` in {f.qualname} passes */** arguments to a path resolver (unrecognised form)")
+            for t in ts:
+                ps = [x for x in t.params if x != t.self_name or t.is_static]
+                bound = dict(zip(ps, c.args))
+                bound.update({k.arg: k.value for k in c.keywords})
+                if resolvers[t] in bound:
+                    passed.append((c, t, bound[resolvers[t]]))
+        seen_calls = set()
+        for c, t, a in passed:
+            if (id(c), t) in seen_calls:
+                continue
+            seen_calls.add((id(c), t))
+            n_sites += 1
+            why_shared = None
+            if isinstance(a, (ast.Name, ast.Attribute)) or (isinstance(a, ast.Subscript) and not isinstance(a.slice, ast.Slice)):
+                base = a
+                while isinstance(base, (ast.Attribute, ast.Subscript)):
+                    base = base.value
+                if isinstance(base, ast.Name) and comp_generator_of(base) is None:
+                    # (i) evaluated repeatedly in a loop that does not re-bind the name
+                    for anc in ancestors(c):
+                        if isinstance(anc, (ast.FunctionDef, ast.AsyncFunctionDef, ast.Lambda)):
+                            break
+                        if isinstance(anc, (ast.For, ast.AsyncFor, ast.While)) and any(contains(b_, c) for b_ in anc.body + anc.orelse):
+                            rebound = base.id in target_names(anc.target) if not isinstance(anc, ast.While) else False
+                            for n in ast.walk(anc):
+                                if n is not anc and isinstance(n, ast.Name) and isinstance(n.ctx, (ast.Store, ast.Del)) and n.id == base.id \
+                                        and comp_generator_of(n) is None:
+                                    rebound = True
+                            if not rebound:
+                                why_shared = f"it is evaluated in every iteration of `{norm(anc)}` while `{base.id}` stays the same object"
+                                break
+                        if isinstance(anc, COMPS) and not contains(anc.generators[0].iter, c):
+                            why_shared = f"it is evaluated for every element of `{norm(anc)}` while `{base.id}` stays the same object"
+                            break
+                    # (ii) the same object is also handed to a resolver at another call
+                    if why_shared is None and isinstance(a, ast.Name):
+                        mine = {id(d) for d in rd.defs_reaching(a)}
+                        cfg = ctx.cfg(f)
+                        st1 = stmt_of(cfg, c)
+                        for c2, t2, a2 in passed:
+                            if c2 is not c and isinstance(a2, ast.Name) and a2.id == a.id and mine & {id(d) for d in rd.defs_reaching(a2)}:
+                                st2 = stmt_of(cfg, c2)
+                                if st1 is None or st2 is None or st1 is st2 or cfg.reachable_after(st1, st2) or cfg.reachable_after(st2, st1):
+                                    why_shared = f"the same `{a.id}` is also handed to `{norm(c2)}`"
+                                    break
+            elif isinstance(a, ast.Call) and call_name(a) not in _FRESH_CALLS and not isinstance(a.func, ast.Name):
+                why_shared = None      # result of a method call: a new value for all resolvers of this module (strings / fresh lists)
+            label = f"identifier handed to {t.qualname}: {norm(c)}"
+            if why_shared is None:
+                ctx.ok(rid, f, c, "the identifier is a new object at every call (slice / copy / string) or is handed over once", label=label,
+                       nontrivial=False)
+                continue
+            shared_sites.append((f, c, t))
+            if t in consumed:
+                how = consumed[t][0].how if consumed[t] else f"a callee mutates its `{resolvers[t]}`"
+                where = f" (line {consumed[t][0].stmt.lineno})" if consumed[t] and hasattr(consumed[t][0].stmt, "lineno") else ""
+                ctx.violation(rid, f, c, f"`{norm(a)}` is handed to {t.qualname} repeatedly - {why_shared} - but {t.qualname} edits the "
+                                         f"identifier object it receives in place ({how}{where}): after the first resolution that descends "
+                                         f"further, the remaining resolutions see a shortened path, so a wildcard path denotes other nodes "
+                                         f"under later siblings than under the first", {"mutation": how}, label=label)
+            else:
+                ctx.ok(rid, f, c, f"`{norm(a)}` is handed over repeatedly ({why_shared}); {t.qualname} never edits it in place", label=label)
+    ctx.require(n_sites >= 6, f"{rid}: only {n_sites} call sites of the path resolvers found (a rule that matches nothing would pass vacuously)")
+    for r, prm in resolvers.items():
+        label = f"resolver {r.qualname} and its identifier `{prm}`"
+        if r not in consumed:
+            ctx.ok(rid, r, r.node, f"{r.qualname} never edits the identifier object `{prm}` it was given (neither directly nor in a callee)",
+                   label=label)
+        elif not any(t is r for _, _, t in shared_sites):
+            ctx.ok(rid, r, r.node, f"{r.qualname} edits `{prm}` in place, but no caller hands the same object to it more than once",
+                   {"mutation": consumed[r][0].how if consumed[r] else "in a callee"}, label=label)
+        # else: reported at the call sites above
+
+
 RULES = [
     ("C06-R1", r1_namespaces, 11),     # 22 on the pinned tree; merging duplicated look-ups into helpers lowers the count
     ("C06-R2", r2_label_data_lockstep, 4),
     ("C06-R3", r3_same_path, 3),       # three per entry of the index map (3 entries today; merged branches have fewer)
     ("C06-R4", r4_positions_inside_backend_variable, 2),      # one per get_variable_positions call in run() (2 today) + 1
     ("C06-R5", r5_index_lists_applied, 2),
+    ("C06-R6", r6_identifier_not_consumed, 7),      # one per resolver (3 today) + one per call site (18 today, require >= 6)
 ]
